@@ -64,32 +64,44 @@ def plan(tier):
                     ("src/raft/storage.rs", "c31.rs", "verif_kani_c31", "raft::storage::verif_kani_c31")]
     gen = []
     VIA = ["ClusterConfig::add_node", "ClusterManager::add_node", "ready-made nodes vec"]
+    def consistent(ids, vmask):
+        seen = {}
+        for i, x in enumerate(ids):
+            f = vmask >> i & 1
+            if seen.setdefault(x, f) != f:
+                return False
+        return True
+
     if tier == "quick":
-        # (ids, voter mask, via, removed id): chosen so that every clause has a shape that can break it
-        shapes = [((1,), 1, 0, 0),
-                  ((1, 1), 1, 0, 0), ((1, 1), 1, 1, 0), ((1, 1), 1, 2, 0),
-                  ((1, 2), 3, 0, 0), ((1, 2), 1, 0, 0), ((1, 2), 3, 0, 1),
-                  ((1, 1, 2), 3, 0, 0), ((1, 2, 3), 7, 0, 0), ((1, 2, 3), 3, 2, 0), ((1, 2), 3, 1, 0),
-                  ((1, 2, 2), 3, 2, 0)]
+        # (ids, voter bit per addition, via, removed id): chosen so that every clause has a shape that can break it
+        shapes = [((1,), 0b1, 0, 0),
+                  ((1, 1), 0b11, 0, 0), ((1, 1), 0b11, 1, 0), ((1, 1), 0b11, 2, 0),
+                  ((1, 2), 0b11, 0, 0), ((1, 2), 0b01, 0, 0), ((1, 2), 0b11, 0, 1), ((1, 2), 0b11, 1, 0),
+                  ((1, 1, 2), 0b111, 0, 0), ((1, 2, 3), 0b111, 0, 0), ((1, 2, 3), 0b011, 2, 0), ((1, 2, 2), 0b111, 2, 0),
+                  # voter/learner changes by re-adding an id: promotion and demotion
+                  ((1, 2, 2), 0b101, 0, 0), ((1, 2, 2), 0b011, 0, 0), ((1, 2, 2), 0b101, 1, 0)]
     else:
         shapes = []
         for n in range(1, 4):
             for ids in rgs(n):
                 k = max(ids)
-                for vmask in range(1, 2 ** k):
+                for vmask in range(1, 2 ** n):
                     for via in (0, 1, 2):
                         if via == 1 and n == 1:
                             continue
+                        if via == 2 and not consistent(ids, vmask):
+                            continue
                         for rm in ((0,) if via else range(0, k + 1)):
                             shapes.append((ids, vmask, via, rm))
-        shapes += [((1, 1, 2, 2), 3, 0, 0), ((1, 2, 3, 1), 7, 2, 0), ((1, 2, 1, 2), 3, 1, 0), ((1, 1, 1, 2), 3, 2, 0)]
+        shapes += [((1, 1, 2, 2), 0b1111, 0, 0), ((1, 2, 3, 1), 0b0111, 2, 0), ((1, 2, 1, 2), 0b1111, 1, 0),
+                   ((1, 1, 1, 2), 0b1111, 2, 0), ((1, 2, 3, 2), 0b0111, 0, 0)]
     for k, (ids, vmask, via, rm) in enumerate(shapes):
         n = len(ids)
         fn = "c33_health_%s_v%d_via%d_rm%d" % ("".join(str(x) for x in ids), vmask, via, rm)
         gen.append("vk_proof! {\n#[kani::unwind(%d)]\n#[kani::stub(core::fmt::write, vk_fmt_write)]\n"
                    "#[kani::stub(std::fmt::format, vk_fmt_format)]\nfn %s() { health(&[%s], %d, %d, %d); }\n}\n"
                    % (n + 2, fn, ", ".join(str(x) for x in ids), vmask, via, rm))
-        p.add(MOD, H(fn, {"ids": list(ids), "voter_ids": [i + 1 for i in range(3) if vmask >> i & 1],
+        p.add(MOD, H(fn, {"ids": list(ids), "voter_flag_per_addition": [bool(vmask >> i & 1) for i in range(n)],
                           "built_via": VIA[via], "remove_node": rm or None}, "health"))
 
     def src_check(tree):
@@ -120,9 +132,10 @@ def plan(tier):
         "std::collections::{HashMap,HashSet} redirected (use line only) to shims/vkcoll: a finite map/set with unique keys, "
         "4 slots, iteration in slot order (hashbrown's SIMD probing does not get through CBMC)",
         "core::fmt::write / std::fmt::format stubbed (formatting is not the subject)",
-        "repeated additions of one id carry the same voter flag (so 'distinct voting members' is unambiguous)",
+        "a later addition of an id through add_node decides that member's class (voter/learner); configurations handed "
+        "over ready-made carry one flag per id",
     ]
-    p.bound = ("%d shapes (id sequence as restricted-growth string of length <= %d over <= 3 ids, voter flag per id, "
+    p.bound = ("%d shapes (id sequence as restricted-growth string of length <= %d over <= 3 ids, voter flag per addition, "
                "construction path, removed id) x symbolic arguments in 0..=3 of 2 mark_active, 1 mark_inactive, "
                "1 update_node_role(Leader); unwind n+2 with unwinding assertions; intersection lemma: all 64-bit v,a,b"
                % (len(shapes), max(len(sh[0]) for sh in shapes)))
